@@ -1,6 +1,6 @@
 (* extraction of the C08 executable models; ExtrOcamlBasic only *)
 Require Extraction.
 Require Import ExtrOcamlBasic.
-Require Import Base Suggestion PosConv C08DocState.
+Require Import Base Suggestion PosConv C08TokenAt C08DocState.
 Extraction Language OCaml.
-Extraction "../ocaml/gen/c08_model.ml" run_span_to_range run_range_to_span run_range_to_span_old run_resolve run_resolve_lsp run_client_apply_lsp run_text_edit run_client_apply run_apply run_span_to_range_u32 run_text_edit_u32 run_as_u32 drv_run mkddoc mkdlint.
+Extraction "../ocaml/gen/c08_model.ml" run_span_to_range run_range_to_span run_range_to_span_old run_resolve run_resolve_lsp run_client_apply_lsp run_text_edit run_client_apply run_apply run_span_to_range_u32 run_text_edit_u32 run_as_u32 drv_run mkddoc mkdlint run_token_at run_binary_search mkdtoken.
